@@ -73,30 +73,42 @@ def RoundCache.append (sigLen : Nat) (r : RoundCache) (p : Partial) : RoundCache
 
 def maxPartials : Nat := Gen.maxPartialsPerNode
 
-/-- `getCache`: the existing round cache, or a fresh one after evicting this signer's oldest entry when the
-signer is at its quota. Returns the updated cache and the round cache to append to. -/
+/-- `getCache`: the round cache to append to. The quota is enforced for every new (signer, round cache) pair —
+also when the round cache was opened by another signer — by evicting this signer's oldest entry first. -/
 def Cache.getCache (c : Cache) (id : RId) (p : Partial) : Cache × Except AppendRes RoundCache :=
-  match aget id c.rounds with
-  | some r => (c, .ok r)
-  | none =>
-    match indexOf c.sigLen p.psig with
-    | none => (c, .error .errIndex)
-    | some idx =>
+  match indexOf c.sigLen p.psig with
+  | none => (c, .error .errIndex)
+  | some idx =>
+    let existing := aget id c.rounds
+    let seen : Bool := match existing with
+      | some r => (aget idx r.sigs).isSome
+      | none => false
+    if seen then
+      match existing with
+      | some r => (c, .ok r)
+      | none => (c, .error .errEvicted)   -- unreachable
+    else
       let l := c.rcvdOf idx
-      if l.length ≥ maxPartials then
-        match l with
-        | [] => (c, .error .errEvicted)      -- unreachable when maxPartials > 0
-        | toEvict :: rest =>
-          match aget toEvict c.rounds with
-          | none => (c, .error .errEvicted)
-          | some er =>
-            let er' : RoundCache := { er with sigs := adel idx er.sigs }
-            let rounds' := if er'.sigs.length = 0 then adel toEvict c.rounds else aset toEvict er' c.rounds
-            let fresh : RoundCache := ⟨p.round, p.prev, []⟩
-            ({ c with rounds := aset id fresh rounds', rcvd := aset idx rest c.rcvd }, .ok fresh)
-      else
-        let fresh : RoundCache := ⟨p.round, p.prev, []⟩
-        ({ c with rounds := aset id fresh c.rounds }, .ok fresh)
+      let evictedE : Except AppendRes Cache :=
+        if l.length ≥ maxPartials then
+          match l with
+          | [] => .error .errEvicted      -- unreachable when maxPartials > 0
+          | toEvict :: rest =>
+            match aget toEvict c.rounds with
+            | none => .error .errEvicted
+            | some er =>
+              let er' : RoundCache := { er with sigs := adel idx er.sigs }
+              let rounds' := if er'.sigs.length = 0 then adel toEvict c.rounds else aset toEvict er' c.rounds
+              .ok { c with rounds := rounds', rcvd := aset idx rest c.rcvd }
+        else .ok c
+      match evictedE with
+      | .error e => (c, .error e)
+      | .ok c1 =>
+        match aget id c1.rounds with
+        | some r => (c1, .ok r)
+        | none =>
+          let fresh : RoundCache := ⟨p.round, p.prev, []⟩
+          ({ c1 with rounds := aset id fresh c1.rounds }, .ok fresh)
 
 /-- `partialCache.Append` -/
 def Cache.append (c : Cache) (p : Partial) : Cache × AppendRes :=
